@@ -3,10 +3,11 @@
   Only property theorems, non-vacuity examples and witnesses live here; lemmas are in Proofs/Exec.lean.
   Every theorem is about the configuration `Generated.C11.cfg` that vf/props/c11.py re-extracts from
   sqlglot/executor/env.py and python.py on every run (`generated_cfg_ok` ties it to the proved one).
-  Partial: planner.Step.from_expression, PythonGenerator, Context and optimize() are not modelled; the
-  composition is checked end-to-end against SQLite and DuckDB by the search oracle only.
+  Partial: the planner / executor composition is modelled and proved only for the single-table fragment
+  (`single_table_query_spec`); joins, set operations, subqueries as plans, PythonGenerator beyond the predicate
+  fragment, Context and optimize() are checked end-to-end against SQLite and DuckDB by the search oracle only.
 -/
-import SqlglotModel.Proofs.Exec
+import SqlglotModel.Proofs.ExecPlan
 import SqlglotModel.Generated.C11
 
 namespace SqlglotModel.Properties.C11
@@ -153,5 +154,165 @@ theorem sort_step_spec (items : List OrdItem) (limit : Option Nat) (offset : Nat
     ∧ List.Perm (sortRows cfg items rows) rows := by
   rw [generated_cfg_ok]
   exact ⟨SqlglotModel.Exec.sort_step_spec items limit offset rows, sort_rows_perm _ items rows⟩
+
+/-! ## deepening round: the executor's own sort, the limit break, ANY/ALL, scan, the single-table planner -/
+
+/-- `context.sort(group_by)` (the model's stable sort by the key `(t is None, t)`) puts every key into one run -/
+theorem sort_by_group_key_clusters (keyOf : Row → Key) (rows : List Row) :
+    Clustered keyOf (sortByGroupKey keyOf rows) ∧ List.Perm (sortByGroupKey keyOf rows) rows :=
+  ⟨sortByGroupKey_clustered keyOf rows, sortByGroupKey_perm keyOf rows⟩
+
+/-- aggregate() as a whole (its own sort, then the run loop), unconditional: the GROUP BY of the reference semantics,
+    in key order; as a bag it is the GROUP BY of the unsorted input whenever the aggregates depend on the bag of their
+    inputs only (which the ENV aggregates do: `env_aggs_perm_invariant`) -/
+theorem aggregate_spec (keyOf : Row → Key) (agg : List Row → Row) (rows : List Row) (hne : rows ≠ []) (hasGroupBy : Bool)
+    (hagg : ∀ a b, List.Perm a b → agg a = agg b) :
+    aggregate cfg keyOf agg hasGroupBy none none rows = groupAgg keyOf agg (sortByGroupKey keyOf rows)
+    ∧ List.Perm (aggregate cfg keyOf agg hasGroupBy none none rows) (groupAgg keyOf agg rows) := by
+  rw [generated_cfg_ok]
+  have e : aggregate stdCfg keyOf agg hasGroupBy none none rows = groupAgg keyOf agg (sortByGroupKey keyOf rows) := by
+    rw [aggregate_eq]; unfold aggTbl; rw [if_neg hne]
+  exact ⟨e, e ▸ groupAgg_perm keyOf agg hagg _ rows (sortByGroupKey_perm keyOf rows)⟩
+
+theorem env_aggs_perm_invariant (vs ws : List Val) (h : List.Perm vs ws) :
+    envCount cfg vs = envCount cfg ws ∧ envSum cfg vs = envSum cfg ws
+    ∧ envMin cfg vs = envMin cfg ws ∧ envMax cfg vs = envMax cfg ws := by
+  rw [generated_cfg_ok]; exact env_aggs_perm vs ws h
+
+/-- the `len(table.rows) >= offset + limit` break inside aggregate()'s loop: exactly the first `cap` groups -/
+theorem aggregate_limit_spec (keyOf : Row → Key) (agg : List Row → Row) (rows : List Row) (hne : rows ≠ [])
+    (hasGroupBy : Bool) (cap : Nat) (limit : Option Nat) :
+    aggregateSorted cfg keyOf agg hasGroupBy (some cap) limit rows = (emitRuns agg (runs keyOf rows)).take cap := by
+  rw [generated_cfg_ok]; exact aggregate_runs_limit_spec keyOf agg rows hne hasGroupBy cap limit
+
+/-- `v op ANY (subquery)` / `v op ALL (subquery)`: _subquery_comparison's early-exit loop with its saw_null flag is
+    the Kleene disjunction / conjunction of the comparisons, for all value lists (empty: FALSE / TRUE) -/
+theorem subquery_comparison_spec (op : CmpOp) (v : Val) (xs : List Val) :
+    subqueryComparison cfg (cmpName op) "ANY" v xs = some (triVal (any3 op v xs))
+    ∧ subqueryComparison cfg (cmpName op) "ALL" v xs = some (triVal (all3 op v xs)) := by
+  rw [generated_cfg_ok]; exact SqlglotModel.Exec.subquery_comparison_spec op v xs
+
+example : subqueryComparison cfg "GT" "ALL" (.int 3) [.int 1, .null] = some .null := by decide +kernel
+
+/-- scan / static / _project_and_filter (condition with Python truthiness, projection, the `len(sink) >= offset +
+    limit` break) and `_execute`'s offset slice: SELECT … WHERE … LIMIT … OFFSET … of the reference semantics -/
+theorem scan_spec (src : ScanSource) (cond : Option (Row → Val)) (projs : Option (Row → Row)) (limit : Option Nat) (offset : Nat) :
+    scan src cond projs (capOf limit offset)
+      = takeCap (capOf limit offset) (selectWhere cond projs (match src with | .static => [[]] | .table rows => rows))
+    ∧ applyOffset offset (scan src cond projs (capOf limit offset))
+      = limitOffset limit offset (selectWhere cond projs (match src with | .static => [[]] | .table rows => rows)) :=
+  ⟨SqlglotModel.Exec.scan_spec src cond projs _, scan_limit_offset_spec src cond projs limit offset⟩
+
+/-- **The planner + executor composition on the single-table fragment.**  `plan` mirrors Step.from_expression (tied
+    to the real one by comparing Step DAGs on generated queries), `exec` mirrors `_execute` / join / aggregate / sort
+    with RowReader's by-name column resolution.  For every well-formed query (`QWF`) and every table whose rows have
+    the table's width, executing the plan returns the reference answer `Sem.Query.eval`: the output names; the same bag
+    of rows without ORDER BY; the same SEQUENCE under a total ORDER BY, and always for a query without aggregation.
+
+    Known executor / planner defects INSIDE this fragment are excluded by `QWF` and witnessed below:
+    `noDistinctOrder` (`distinct_order_counterexample`), `aliasesNodup` (`duplicate_output_names_counterexample`),
+    `noShadow` (`alias_shadow_counterexample`, found while building this model).  Known defects OUTSIDE the fragment
+    (not expressible in `Sem.Query`): computed aggregate operands over a join, set-operation arms sharing an alias,
+    ORDER BY a column over a join, HAVING / a projection mixing a bare group key with an aggregate (both become one
+    aggregation that reads the key through the range reader: the model has no such object), and the optimizer rules. -/
+theorem single_table_query_spec (q : Query) (rows : List Row) (h : QWF q) (hrows : ∀ r ∈ rows, r.length = q.cols.length) :
+    ∃ out, exec cfg ⟨q.cols, rows⟩ (plan q) = some ⟨q.outs.map Out.alias, out⟩
+      ∧ (q.order = [] → List.Perm out (q.eval rows))
+      ∧ (q.order ≠ [] → TotalOn q (q.body rows) → out = q.eval rows)
+      ∧ (q.group = none → q.distinct = false → out = q.eval rows) := by
+  rw [generated_cfg_ok]; exact single_table_query_spec_std q rows h hrows
+
+/-- an ORDER BY that mentions every output column is total -/
+theorem order_by_all_outputs_total (q : Query) (rows : List Row) (hall : ∀ p, p < q.outs.length → ∃ it ∈ q.order, it.1 = p) :
+    TotalOn q (q.body rows) :=
+  total_of_all_positions q _ (fun x hx => body_len q rows x hx) hall
+
+/-- non-vacuity: SELECT DISTINCT COALESCE-free version of the seeded planner regression's query shape,
+    `SELECT DISTINCT a AS k, SUM(b) AS s FROM x WHERE b > 0 GROUP BY a, c HAVING MIN(b) > 0` is well-formed -/
+def exampleQuery : Query where
+  cols := ["a", "b", "c"]
+  where_ := some (.cmp .gt (.col 1) (.lit (.int 0)))
+  group := some [0, 2]
+  outs := [.col 0 "k", .agg .sum 1 "s"]
+  having := some ⟨.min, 1, .gt, .int 0⟩
+  distinct := true
+  order := []
+  limit := none
+  offset := 0
+
+example : QWF exampleQuery where
+  colsNodup := by decide
+  srcInRange := by decide
+  outsNonempty := by decide
+  whereWF := by intro e he; cases he; exact ⟨trivial, trivial⟩
+  aliasesNodup := by decide
+  noDistinctOrder := fun _ => rfl
+  limitNeedsOrder := fun _ => ⟨rfl, rfl⟩
+  orderInRange := by intro it hit; cases hit
+  plainCols := by intro hg; cases hg
+  noShadow := by intro hg; cases hg
+  grouped := by
+    intro keys hk
+    cases hk
+    refine ⟨by decide, by decide, by decide, ?_, by decide +kernel⟩
+    intro hv hh; cases hh; decide
+
+def distinctOrderQuery : Query where
+  cols := ["b"]
+  where_ := none
+  group := none
+  outs := [.col 0 "b"]
+  having := none
+  distinct := true
+  order := [(0, true, false)]
+  limit := none
+  offset := 0
+
+/-- KNOWN DEFECT (C11-distinct-drops-order), inside the fragment: SELECT DISTINCT b FROM x ORDER BY b DESC over
+    b ∈ {0, 1}.  The DISTINCT Aggregate step sits above the Sort and re-sorts by the group key: the plan returns
+    [0, 1], the reference answer is the sequence [1, 0] (the ORDER BY is total).  Hence `QWF.noDistinctOrder`. -/
+theorem distinct_order_counterexample :
+    exec cfg ⟨["b"], [[.int 0], [.int 1]]⟩ (plan distinctOrderQuery) = some ⟨["b"], [[.int 0], [.int 1]]⟩
+    ∧ distinctOrderQuery.eval [[.int 0], [.int 1]] = [[.int 1], [.int 0]] := by
+  decide +kernel
+
+def duplicateNamesQuery : Query where
+  cols := ["a", "b"]
+  where_ := none
+  group := none
+  outs := [.col 0 "p", .col 1 "p"]
+  having := none
+  distinct := true
+  order := []
+  limit := none
+  offset := 0
+
+/-- KNOWN DEFECT (C11-duplicate-output-names), inside the fragment: SELECT DISTINCT a AS p, b AS p over {(1, 2)}: the
+    DISTINCT step's group dict is keyed by the output name, one column is lost.  Hence `QWF.aliasesNodup`. -/
+theorem duplicate_output_names_counterexample :
+    exec cfg ⟨["a", "b"], [[.int 1, .int 2]]⟩ (plan duplicateNamesQuery) = some ⟨["p"], [[.int 2]]⟩
+    ∧ duplicateNamesQuery.eval [[.int 1, .int 2]] = [[.int 1, .int 2]] := by
+  decide +kernel
+
+def aliasShadowQuery : Query where
+  cols := ["a", "b"]
+  where_ := none
+  group := none
+  outs := [.col 0 "b", .col 1 "q"]
+  having := none
+  distinct := false
+  order := [(1, false, false)]
+  limit := none
+  offset := 0
+
+/-- DEFECT found with this model (C11-alias-shadows-order-column), inside the fragment:
+    SELECT a AS b, b AS q FROM x ORDER BY x.b over {(1, 2), (2, 1)}.  The Sort sink's columns are the table's columns
+    followed by the output aliases and RowReader resolves "b" to the LAST column of that name: the alias, i.e. `a`.
+    The plan sorts by `a` and returns [(1,2),(2,1)]; the reference answer is [(2,1),(1,2)].  Hence `QWF.noShadow`. -/
+theorem alias_shadow_counterexample :
+    exec cfg ⟨["a", "b"], [[.int 1, .int 2], [.int 2, .int 1]]⟩ (plan aliasShadowQuery)
+      = some ⟨["b", "q"], [[.int 1, .int 2], [.int 2, .int 1]]⟩
+    ∧ aliasShadowQuery.eval [[.int 1, .int 2], [.int 2, .int 1]] = [[.int 2, .int 1], [.int 1, .int 2]] := by
+  decide +kernel
 
 end SqlglotModel.Properties.C11
